@@ -126,3 +126,98 @@ def blank_literals(line):
 def has_placeholder(line):
     """`STRING<<>>` outside string literals and comments"""
     return re.search(r"(?i)STRING<<>>", blank_literals(line)) is not None
+
+
+# --------------------------------------------------------------------------- block structure of a whole procedure
+
+_BLOCK_CACHE = {}
+
+
+def block_events(lines):
+    """[(word, line index)]: the block keywords of a BASIC09 procedure in order, each where it starts a statement
+    (any procedure: the library uses WHILE, REPEAT, FOR with its NEXT … that the tool never writes).  Words: IF (block
+    form), IF1 (one-line form: a line number follows THEN), ELSE, ENDIF, WHILE, ENDWHILE, REPEAT, UNTIL, LOOP, ENDLOOP,
+    EXITIF, ENDEXIT, FOR, NEXT; BAD-IF / BAD-WHILE when THEN / DO is missing.  Statements are separated by line ends and
+    `\\`; THEN, ELSE and DO also end a clause (what follows them on the line is the next statement)."""
+    ev = []
+    for n, line in enumerate(lines):
+        toks = [t for t in code_tokens(line_label(line)[1]) if t[0] != "str"]
+        words = [(k, t.upper() if k == "id" else t) for k, t in toks]
+        i = 0
+        start = True                  # at the start of a statement
+        while i < len(words):
+            k, w = words[i]
+            if (k, w) == ("op", "\\"):
+                start = True
+                i += 1
+                continue
+            if k == "id" and start and w == "REM":
+                break
+            if k == "id" and start and w in ("IF", "EXITIF"):
+                j = i + 1
+                while j < len(words) and words[j] != ("id", "THEN"):
+                    j += 1
+                if j >= len(words):
+                    ev.append(("BAD-IF", n))
+                    break
+                if w == "IF" and j + 1 < len(words) and words[j + 1][0] == "num":
+                    ev.append(("IF1", n))
+                    i = j + 2
+                    start = False
+                else:
+                    ev.append((w, n))
+                    i = j + 1
+                    start = True
+                continue
+            if k == "id" and start and w == "WHILE":
+                j = i + 1
+                while j < len(words) and words[j] != ("id", "DO"):
+                    j += 1
+                if j >= len(words):
+                    ev.append(("BAD-WHILE", n))
+                    break
+                ev.append(("WHILE", n))
+                i = j + 1
+                start = True
+                continue
+            if k == "id" and start and w in ("REPEAT", "LOOP", "FOR", "ELSE", "ENDIF", "ENDWHILE", "UNTIL", "ENDLOOP", "ENDEXIT", "NEXT"):
+                ev.append((w, n))
+                start = w in ("REPEAT", "LOOP", "ELSE")
+                i += 1
+                continue
+            start = False
+            i += 1
+    return ev
+
+
+BLOCK_CLOSES = {"ENDIF": "IF", "ENDWHILE": "WHILE", "UNTIL": "REPEAT", "ENDLOOP": "LOOP", "ENDEXIT": "EXITIF", "NEXT": "FOR"}
+
+
+def block_errors(lines):
+    """why the block structure of a procedure is broken (an opener without its closer, a closer or ELSE without its
+    opener), or None"""
+    key = "\n".join(lines)
+    if key in _BLOCK_CACHE:
+        return _BLOCK_CACHE[key]
+    stack, err = [], None
+    for w, n in block_events(lines):
+        where = f" | {lines[n].strip()[:80]}"
+        if w.startswith("BAD-"):
+            err = f"line {n}: {w[4:]} without its THEN / DO" + where
+        elif w in ("IF", "EXITIF", "WHILE", "REPEAT", "LOOP", "FOR"):
+            stack.append((w, n))
+        elif w == "ELSE":
+            if not stack or stack[-1][0] != "IF":
+                err = f"line {n}: ELSE outside an IF block" + where
+        elif w in BLOCK_CLOSES:
+            if not stack or stack[-1][0] != BLOCK_CLOSES[w]:
+                top = f"{stack[-1][0]} opened at line {stack[-1][1]}" if stack else "nothing"
+                err = f"line {n}: {w} closes {top}" + where
+            else:
+                stack.pop()
+        if err:
+            break
+    if err is None and stack:
+        err = f"{stack[-1][0]} opened at line {stack[-1][1]} is never closed | {lines[stack[-1][1]].strip()[:80]}"
+    _BLOCK_CACHE[key] = err
+    return err
